@@ -465,6 +465,11 @@ class Explorer:
                     if len(args) >= 1 and args[0][0] == 'agg' and isinstance(args[0][1], tuple) and args[0][1][0] == 'adt' \
                             and args[0][1][2] in ('Ok', 'Some') and args[0][2] and (name.endswith('::unwrap') or name.endswith('::expect')):
                         res = args[0][2][0]
+                    # length of a fixed-size array viewed as a slice is its type-level length
+                    if len(args) == 1 and name.endswith('::len') and 'slice' in name:
+                        n = self.array_len(args[0])
+                        if n is not None:
+                            res = ('const', n, 'usize')
                     path.events.append(('call', name, args, bb, res, t, len(path.conds)))
                     # effects through &mut arguments
                     for a_op, a in zip(t['args'], args):
@@ -538,6 +543,30 @@ class Explorer:
                 out.append(path)
                 break
         return out
+
+    def array_len(self, t):
+        """N if the term is (a reference to / an unsizing cast of) a local of array type [T; N]"""
+        import re as _re
+        for _ in range(6):
+            if t[0] in ('ref', 'deref'):
+                t = t[1]
+            elif t[0] == 'cast':
+                t = t[2]
+            else:
+                break
+        l = None
+        if t[0] == 'loc' and t[1][0] == 'L':
+            l = t[1][1]
+        elif t[0] in ('init', 'hav'):
+            l = t[1]
+        if l is None:
+            return None
+        ty = self.body.local_ty(l)
+        if ty.get('k') == 'array':
+            m = _re.match(r'^\[.*; (\d+)\]$', ty.get('s', ''))
+            if m:
+                return int(m.group(1))
+        return None
 
     def havoc_through(self, store, a_op, a, bb):
         """A callee may write through a `&mut` argument: forget what is known about the pointee."""
